@@ -3,17 +3,14 @@ import json, os, subprocess, sys
 import vlib
 from props import solverstream as ss
 
-THEOREMS = []
+THEOREMS = ["C06_simplify_order_independent"]
 CHECKER = ("tools/census.py vs tools/census_expected.json (hash-container iteration sites); harness solve_cases --repeat run as "
            "N separate processes (fresh ahash seeds): solution order, provider call order, conflict graph, graphviz and message "
            "text must be byte-identical across processes and across two solver instances in one process")
 
 
 def run(res, tier, seed, replay):
-    bad = vlib.scan_forbidden()
-    res.obligation(not bad, "forbidden construct in Coq sources: " + "; ".join(bad[:5]) if bad else None)
-    ok, out = vlib.coq_make(["Spec/Oracle.vo"])
-    res.obligation(ok, None if ok else "Coq development no longer builds: " + out[-1500:])
+    vlib.proof_gate(res, "C06", THEOREMS)
     # census of hash-iteration sites
     sys.path.insert(0, os.path.join(vlib.ROOT, "tools"))
     import census
